@@ -126,6 +126,7 @@ type run struct {
 	pcFeasibleKnown bool
 	lastInstr       ssa.Instruction
 	lazyAssumes     int
+	choiceMemo      map[string]int
 }
 
 type knownClass struct {
@@ -344,6 +345,19 @@ func (i *interpreter) choice(name string, n int) int {
 	if n <= 1 {
 		return 0
 	}
+	if v, ok := r.choiceMemo[name]; ok {
+		return v // a named choice is an input: asking again gives the same value
+	}
+	v := i.choice1(name, n)
+	if r.choiceMemo == nil {
+		r.choiceMemo = map[string]int{}
+	}
+	r.choiceMemo[name] = v
+	return v
+}
+
+func (i *interpreter) choice1(name string, n int) int {
+	r := i.run
 	// A choice is an input variable so that models name it for replay.
 	t := r.input(name, smt.SInt, big0, big.NewInt(int64(n-1)))
 	if r.pos < len(r.decisions) {
